@@ -115,21 +115,21 @@ Section Copies.
   | L_halt i k o : downs o = [] -> lim i k (Halt o)
   | L_emit i k d c' kk : (forall r, lim i k (kk r)) -> lim i (S k) (Do (SEmit d c') kk)
   | L_ins i k m kk : (forall r, lim i k (kk r)) -> lim (S i) k (Do (SCreateUpstream m) kk)
-  | L_quiet i k o kk : (benign o = true \/ o = SNextDn) -> (forall r, res_ok o r -> lim i k (kk r)) -> lim i k (Do o kk).
+  | L_quiet i k o kk : (benign o = true \/ exists key, o = SNextDn key) -> (forall r, res_ok o r -> lim i k (kk r)) -> lim i k (Do o kk).
   (* has not advanced the stored counter yet: reads the row, stops unless the compare-and-store succeeds *)
   Inductive prew : prog -> Prop :=
   | W_halt o : downs o = [] -> prew (Halt o)
   | W_row kk : (forall dev, d_relaxed dev = false -> prew (kk (XRow (Some dev)))) -> prew (kk (XRow None)) -> prew (Do SGetRow kk)
-  | W_cas kw kk : (forall e, prew (kk (XErr (Some e)))) -> lim 1 1 (kk (XErr None)) -> prew (Do (SAdvanceUp c ((c + 1) mod 65536) kw) kk).
+  | W_cas key kw kk : (forall e, prew (kk (XErr (Some e)))) -> lim 1 1 (kk (XErr None)) -> prew (Do (SAdvanceUp key c ((c + 1) mod 65536) kw) kk).
 
   Lemma step_prew st o kk : prew (Do o kk) -> fb_down st -> strict st ->
     let '(st', r, e) := exec apps st o in
     e = [] /\ ds_inbox st' = ds_inbox st /\ fb_down st' /\ strict st' /\
     ((prew (kk r) /\ (past st -> past st')) \/ (past st' /\ lim 1 1 (kk r) /\ ~ past st)).
   Proof.
-    intros H Hfb Hs. inversion H as [| kk' Hsome Hnone | kw kk' Hf Hok]; subst.
+    intros H Hfb Hs. inversion H as [| kk' Hsome Hnone | key kw kk' Hf Hok]; subst.
     - cbn [exec]. repeat split; auto. left. split; [|auto]. unfold strict in Hs. destruct (ds_row st) as [r|]; [apply Hsome; exact Hs | exact Hnone].
-    - cbn [exec]. destruct (l_advance_fup st c ((c + 1) mod 65536) kw) as [st' [e|]] eqn:U.
+    - cbn [exec]. destruct (l_advance_fup st key c ((c + 1) mod 65536) kw) as [st' [e|]] eqn:U.
       + apply adv_fail in U. destruct U as [-> ->]. repeat split; auto.
       + pose proof U as U'. apply adv_row in U. destruct U as (r & R0 & Hle & R1 & R2 & R3 & R4 & R5).
         split; [reflexivity|]. split; [exact R2|]. split; [unfold fb_down in *; now rewrite R5|].
@@ -146,11 +146,11 @@ Section Copies.
     destruct S as (A & B & C & Dd & [[W P] | (_ & _ & Hn)]); [|contradiction]. repeat split; auto.
   Qed.
 
-  Lemma next_fdn_exec st : fb_down st -> strict st -> past st ->
-    let '(st', cn) := l_next_fdn st in
+  Lemma next_fdn_exec st key : fb_down st -> strict st -> past st ->
+    let '(st', cn) := l_next_fdn st key in
     fb_down st' /\ strict st' /\ past st' /\ ds_inbox st' = ds_inbox st.
   Proof.
-    intros Hfb Hs Hp. destruct (l_next_fdn st) as [st' [cn|]] eqn:U.
+    intros Hfb Hs Hp. destruct (l_next_fdn st key) as [st' [cn|]] eqn:U.
     - apply next_row in U. destruct U as (r & R0 & _ & R1 & R2 & R3 & R4 & R5).
       unfold fb_down, strict, past in *. rewrite R1, R5. rewrite R0 in Hs, Hp. cbn. auto.
     - apply next_none in U. destruct U as [-> _]. auto.
@@ -166,11 +166,11 @@ Section Copies.
     - cbn [exec]. pose proof (create_upstream_exec st m) as U. destruct (l_create_upstream st m) as [st' e]. destruct U as (R & F & L).
       split; [unfold fb_down in *; now rewrite F|]. split; [unfold strict in *; now rewrite R|]. split; [unfold past in *; now rewrite R|].
       exists i0, k. split; [apply Hk|]. cbn. lia.
-    - destruct Ho as [Hb | ->].
+    - destruct Ho as [Hb | [key ->]].
       + pose proof (benign_exec apps st o Hb Hfb) as B. destruct (exec apps st o) as [[st' r] e]. destruct B as (-> & Hr & F & R & I).
         split; [exact F|]. split; [unfold strict in *; now rewrite R|]. split; [unfold past in *; now rewrite R|].
         exists i, k. split; [now apply Hk|]. rewrite I. cbn. lia.
-      + cbn [exec]. pose proof (next_fdn_exec st Hfb Hs Hp) as U. destruct (l_next_fdn st) as [st' cn]. destruct U as (F & S' & P & I).
+      + cbn [exec]. pose proof (next_fdn_exec st key Hfb Hs Hp) as U. destruct (l_next_fdn st key) as [st' cn]. destruct U as (F & S' & P & I).
         repeat split; auto. exists i, k. split; [apply Hk; exact I0 || (cbn; exact Logic.I)|]. rewrite I. cbn. lia.
   Qed.
 
@@ -289,7 +289,7 @@ Section Copies.
   Lemma lim_enc_data dev p rx created now fin : downs fin = [] -> lim 0 1 (enc_data_prog E dev p rx created now fin).
   Proof.
     intros Hfin. unfold enc_data_prog. destruct (encode _); try (now constructor).
-    apply L_quiet; [now right|]. intros r _. destruct r as [| | | | |[cn|]]; try (now constructor).
+    apply L_quiet; [right; eexists; reflexivity|]. intros r _. destruct r as [| | | | |[cn|]]; try (now constructor).
     destruct (encode_message E _ _ _) as [buf| |]; try (now constructor).
     apply L_quiet; [now left|]. intros _ _.
     destruct (length buf =? 0)%nat; [now constructor|]. apply L_emit. intros _. now constructor.
@@ -364,7 +364,7 @@ Section Data.
   Variable r0 : device.                 (* the device row before any of the handlers ran *)
 
   Definition plain (o : sop) : Prop :=
-    benign o = true \/ (exists m, o = SCreateUpstream m) \/ (exists a kw, o = SAdvanceUp a ((a + 1) mod 65536) kw /\ a < 65535).
+    benign o = true \/ (exists m, o = SCreateUpstream m) \/ (exists key a kw, o = SAdvanceUp key a ((a + 1) mod 65536) kw /\ a < 65535).
 
   Inductive phase := Pre | Hold (cn : N) | Post.
   (* Pre: may still reserve a downlink counter; Hold cn: has reserved cn and may emit one frame, which carries
@@ -372,7 +372,7 @@ Section Data.
   Inductive ph : phase -> prog -> Prop :=
   | PH_halt s o : downs o = [] -> ph s (Halt o)
   | PH_op s o k : plain o -> (forall r, res_ok o r -> ph s (k r)) -> ph s (Do o k)
-  | PH_next k : (forall cn, cn < 65536 -> ph (Hold cn) (k (XCnt (Some cn)))) -> ph Post (k (XCnt None)) -> ph Pre (Do SNextDn k)
+  | PH_next key k : (forall cn, cn < 65536 -> ph (Hold cn) (k (XCnt (Some cn)))) -> ph Post (k (XCnt None)) -> ph Pre (Do (SNextDn key) k)
   | PH_emit cn d c' k : down_fcnt d = cn -> (forall r, ph Post (k r)) -> ph (Hold cn) (Do (SEmit d c') k).
 
   Definition hold1 (s : phase) : list N := match s with Hold cn => [cn] | _ => [] end.
@@ -412,13 +412,13 @@ Section Data.
     e = [] /\ res_ok o r /\ fb_down st' /\
     exists r'', ds_row st' = Some r'' /\ same_session r' r'' /\ d_fup r' <= d_fup r'' /\ d_fdn r'' = d_fdn r'.
   Proof.
-    intros [Hb | [[m ->] | (a & kw & -> & Ha)]] Hfb Hr.
+    intros [Hb | [[m ->] | (key & a & kw & -> & Ha)]] Hfb Hr.
     - pose proof (benign_exec apps st o Hb Hfb) as B. destruct (exec apps st o) as [[st' r] e]. destruct B as (-> & Hres & F & R & _).
       repeat split; auto. exists r'. rewrite R. split; [exact Hr|]. split; [apply same_session_refl|]. split; [lia | reflexivity].
     - cbn [exec]. pose proof (create_upstream_exec st m) as U. destruct (l_create_upstream st m) as [st' e]. destruct U as (R & F & _).
       split; [reflexivity|]. split; [exact I|]. split; [unfold fb_down in *; now rewrite F|].
       exists r'. rewrite R. split; [exact Hr|]. split; [apply same_session_refl|]. split; [lia | reflexivity].
-    - cbn [exec]. destruct (l_advance_fup st a ((a + 1) mod 65536) kw) as [st' [e|]] eqn:U.
+    - cbn [exec]. destruct (l_advance_fup st key a ((a + 1) mod 65536) kw) as [st' [e|]] eqn:U.
       + apply adv_fail in U. destruct U as [-> ->]. repeat split; auto. exists r'. split; [exact Hr|]. split; [apply same_session_refl|]. split; [lia | reflexivity].
       + apply adv_row in U. destruct U as (r & R0 & Hle & R1 & R2 & R3 & R4 & R5). rewrite Hr in R0. injection R0 as <-.
         split; [reflexivity|]. split; [exact I|]. split; [unfold fb_down in *; now rewrite R5|].
@@ -458,7 +458,7 @@ Section Data.
     destruct (nth_error ps i) as [[o0 | o k]|] eqn:Ei; try (cbn [fst snd]; now apply (dinv_bound st ps)).
     destruct Hinv as (Hfb & r' & G & phs & Hr & Hs & Hu & Hd & HG0 & HG & HF2 & Hnd & Hall).
     destruct (Forall2_nth ph i phs ps (Do o k) HF2 Ei) as (s & Hsi & Hph).
-    inversion Hph as [| s0 o' k' Hpl Hk | k' Hsome Hnone | cn d c' k' Hcn Hk]; subst.
+    inversion Hph as [| s0 o' k' Hpl Hk | key k' Hsome Hnone | cn d c' k' Hcn Hk]; subst.
     - (* an operation that neither reserves nor emits *)
       pose proof (plain_exec st o r' Hpl Hfb Hr) as X. destruct (exec apps st o) as [[st' r] e].
       destruct X as (-> & Hres & F' & r'' & R'' & S'' & U'' & D''). apply IH.
@@ -469,8 +469,16 @@ Section Data.
     - (* NextFCntDn *)
       pose proof (npre_pos i phs Hsi) as Hpos.
       assert (HGlt : G < 65536) by lia.
-      cbn [exec]. destruct (l_next_fdn st) as [st' [cn|]] eqn:U.
-      2:{ apply next_none in U. destruct U as [_ U]. congruence. }
+      cbn [exec]. destruct (l_next_fdn st key) as [st' [cn|]] eqn:U.
+      2:{ (* the device is no longer in the session the handler verified the frame in: nothing is reserved, the handler goes quiet *)
+          apply next_none in U. destruct U as [-> _].
+          pose proof (npre_upd i phs Pre Post Hsi) as Hn. cbn [pre1] in Hn.
+          pose proof (holds_upd i phs Pre Post Hsi) as Hperm. cbn [hold1 app] in Hperm.
+          apply IH. split; [exact Hfb|]. exists r', G, (upd i Post phs). rewrite app_nil_r, replace_nth_upd.
+          split; [exact Hr|]. split; [exact Hs|]. split; [exact Hu|]. split; [exact Hd|]. split; [exact HG0|]. split; [lia|].
+          split; [apply Forall2_upd; [exact HF2|]; destruct (_ && _); [now constructor | exact Hnone]|].
+          assert (P2 : Permutation (counters acc ++ holds phs) (counters acc ++ holds (upd i Post phs))) by (apply Permutation_app_head; exact Hperm).
+          split; [eapply Permutation_NoDup; [exact P2 | exact Hnd] | eapply Perm_Forall; [exact P2 | exact Hall]]. }
       apply next_row in U. destruct U as (rr & R0 & Hcn & R1 & R2 & R3 & R4 & R5). rewrite Hr in R0. injection R0 as <-.
       rewrite Hd, N.mod_small in Hcn by exact HGlt. subst cn.
       pose proof (npre_upd i phs Pre (Hold G) Hsi) as Hn. cbn [pre1] in Hn.
@@ -552,7 +560,7 @@ Section Data.
       destruct r as [[e|]| | | | |]; try (now constructor).
       apply PH_op; [left; reflexivity|]. intros r _. destruct r as [| | | |[|]|]; try (now constructor). now apply ph_queue. }
     destruct (d_fup dev <=? fcnt f); [|apply Body].
-    apply PH_op; [right; right; eexists; eexists; split; [reflexivity | exact Hf]|]. intros r _.
+    apply PH_op; [right; right; eexists; eexists; eexists; split; [reflexivity | exact Hf]|]. intros r _.
     destruct r as [[e|]| | | | |]; try (now constructor); [|apply Body].
     destruct e; try (now constructor). destruct (d_relaxed dev); [apply Body | now constructor].
   Qed.
